@@ -1,9 +1,13 @@
+mod f_astro;
 mod f_goodday;
 mod f_hijri;
+mod f_params;
 mod f_policy;
 mod f_range;
 mod falsify;
 mod gen;
+mod oracle;
+mod oracle_tables;
 mod rng;
 mod units;
 
